@@ -10,7 +10,8 @@ REQUIRED = ["iint", "Epoch.__init__", "Epoch.set", "Epoch._compute_jde", "Epoch.
             "Epoch.get_doy", "Epoch.doy", "Epoch.doy2date", "Epoch.year", "Epoch.leap", "Epoch.is_leap",
             "Epoch.mean_sidereal_time", "Epoch.apparent_sidereal_time", "Epoch.mjd", "Epoch.__call__"]
 THEOREMS = ["C16_epoch", "C16_dow", "C16_dow_within_day", "C16_dow_next", "C16_dow_gregorian", "C16_get_doy", "C16_doy_int_args", "C16_doy_dec31", "C16_doy2date", "C16_doy_refused", "C16_leap", "C16_methods", "C16_methods_month_ends", "C16_year_order", "C16_mjd", "C16_sidereal",
-            "C16_sidereal_ideal", "C16_sidereal_rate", "C16_apparent_ideal", "C16_dow_b64"]
+            "C16_sidereal_ideal", "C16_sidereal_rate", "C16_apparent_ideal", "C16_dow_b64", "C16_sidereal_b64",
+            "C16_equation_of_equinoxes_bound", "C16_equation_of_equinoxes"]
 PROOF_TIMEOUT = {"quick": 2400, "thorough": 3400}
 EXHAUSTIVE = True
 MANIFEST = {
@@ -23,7 +24,11 @@ MANIFEST = {
              "rational value of the IAU 1982 expression (1e-7 day, result in [0,1)) at 117 387 instants; bit-exact correspondence model vs "
              "implementation every run; ideal (real-number) instance: mean sidereal time in [0,1) and congruent mod 1 to the independently "
              "transcribed IAU 1982 expression for EVERY real JDE >= 0, rate 1.00273790935 exactly, apparent = mean + dpsi cos(eps)/15; "
-             "size of the equation of the equinoxes by correspondence and search."),
+             "size of the equation of the equinoxes: |apparent - mean| < 1.2 s proved for T in [-10.5, 8.5] centuries (years 950..2850) under the amplitude "
+             "bounds the C08 check proves for nutation_longitude / true_obliquity (|dpsi| <= 17.1996 + 0.01742|T| + 2.25 arcsec, eps = Laskar obliquity +- 11 arcsec; "
+             "interval arithmetic), elsewhere by correspondence and search (known finding beyond -2000..4000).  Binary64, ALL floats (Flocq bridge B64Verified/B64Mono, symbolic "
+             "evaluation b64run): dow = floor(JDE+1.5) mod 7 for every finite JDE in [0,2^51); mean_sidereal_time returns a float in [0,1) "
+             "(exact fractional part of a non-negative finite float) for every finite JDE in [0,2^23]."),
     "technique": ("kernel computation over the full finite domain (vm_compute reflection) + symbolic composition lemmas on the "
                   "generated text + lia on the calendar spec + exact rational arithmetic for IAU 1982 + bit-exact differential "
                   "correspondence + oracle search + symbolic evaluation of the generated text over the reals (pyrun, floor/fmod lemmas, field)"),
@@ -51,14 +56,14 @@ CLAUSES = {
     "fractional year: integer part = calendar year, strictly increasing day to day": "proved [B64, full domain: value y + (doy-1)/365|366, floor and comparison of every consecutive pair]; within-day monotonicity only searched",
     "leap()/is_leap follow the leap rule in force": "proved [B64, every year, int and float argument]",
     "MJD = JDE - 2400000.5": "proved [B64, exact at 0h of every civil date]; other instants by correspondence/search",
-    "mean sidereal time in [0,1)": "proved [ideal, every real JDE >= 0: C16_sidereal_ideal]; proved [B64] at 117 387 instants (every 100th day x 3 fractions; every 8th day in the thorough-only obligation); all JDE only searched (T3 not attempted)",
+    "mean sidereal time in [0,1)": "proved [ideal, every real JDE >= 0: C16_sidereal_ideal]; proved [B64, EVERY finite JDE in [0, 2^23]: C16_sidereal_b64 - the result is x % 1 of a finite float x >= 0 (all summands non-negative: jd0 is the preceding 0h), hence the exact fractional part, 0 <= r < 1; the 1.0 that float % 1 returns for tiny negative arguments cannot occur]; also kernel computation at 117 387 instants (every 100th day x 3 fractions; every 8th day in the thorough-only obligation)",
     "mean sidereal time agrees with IAU 1982 to 1e-7 day, rate 1.00273790935 turns/day": "proved [ideal, EVERY real JDE >= 0: C16_sidereal_ideal - the returned value is in [0,1) and congruent mod 1 to the independently transcribed IAU 1982 expression Spec.Sidereal.gmst_iau1982 (exactly; within TOL=1e-10 d after 0h the code returns the 0h value, stated as such), C16_sidereal_rate - [spec, true by definition of the transcribed expression] it advances by exactly 1.00273790935 turns/day within a civil day; tied to the code only through C16_sidereal_ideal]; proved [B64 vs exact rational IAU 1982 value, 1e-7 day] at the 117 387 instants; binary64 rounding for all JDE: unproved (searched)",
-    "apparent - mean sidereal time = equation of the equinoxes, under 1.2 s": "proved [ideal: C16_apparent_ideal - apparent = mean + dpsi*3600*cos(eps)/15/86400 for arbitrary nutation dpsi and obliquity eps given as floats or Angles; this restates the code's own formula (pins the units and the /15 and /86400 factors), it is not an independent property; the hypothesis 'mean_sidereal_time returns VFloat s' is satisfiable for every JDE >= 0 by C16_sidereal_ideal]; the size bound 1.2 s depends on the nutation series: unproved (searched; correspondence + oracle over JDE in [0, 5.4e6]); known finding equation-of-equinoxes-exceeds-1.2s-far-epochs (up to ~1.204 s outside years -2000..4000)",
+    "apparent - mean sidereal time = equation of the equinoxes, under 1.2 s": "proved [ideal: C16_apparent_ideal - apparent = mean + dpsi*3600*cos(eps)/15/86400 for arbitrary nutation dpsi and obliquity eps given as floats or Angles; this restates the code's own formula (pins the units and the /15 and /86400 factors), it is not an independent property; the hypothesis 'mean_sidereal_time returns VFloat s' is satisfiable for every JDE >= 0 by C16_sidereal_ideal]; the size bound 1.2 s: proved [ideal, T = (JDE-2451545)/36525 in [-10.5, 8.5] centuries = years 950..2850: C16_equation_of_equinoxes - for every nutation in longitude |dpsi| <= 17.1996 + 0.01742|T| + 2.25 arcsec and true obliquity = Laskar mean obliquity + deps, |deps| <= 11 arcsec, apparent_sidereal_time(Angle eps, Angle dpsi) - mean_sidereal_time is below 1.2 s (C16_equation_of_equinoxes_bound: interval arithmetic on the obliquity polynomial); these two bounds are exactly what the C08 check proves about pymeeus.Coordinates.nutation_longitude / true_obliquity on the regenerated code (C08_nutation_longitude_main_term + C08_nutation_remainders, C08_true_obliquity_closed) - Coordinates is outside this property's model, so they enter as hypotheses here, not by a Coq import; the range is the largest the worst-case amplitude bound allows (the same bound gives 1.2001 s at T = -11 and 1.2003 s at T = 9)]; outside years 950..2850 and in binary64: unproved (searched; correspondence + oracle over JDE in [0, 5.4e6]); known finding equation-of-equinoxes-exceeds-1.2s-far-epochs (up to ~1.204 s outside years -2000..4000)",
 }
 
 
 def proof_files(tier):
-    fs = ["C16_defs.v"] + ["C16_shard_%02d.v" % k for k in range(16)] + ["C16_main.v", "C16_tac.v", "C16_ideal.v", "C16_b64.v"]
+    fs = ["C16_defs.v"] + ["C16_shard_%02d.v" % k for k in range(16)] + ["C16_main.v", "C16_tac.v", "C16_ideal.v", "C16_eqeq.v", "C16_b64.v", "C16_mst_b64.v"]
     if tier == "thorough":
         # extra obligations (not in THEOREMS, which is the same in both tiers): within-day weekday on EVERY
         # civil date, sidereal time on every 8th day; a failure breaks stage P
